@@ -25,6 +25,8 @@ Slots == { [o |-> x.o, v |-> x.v, where |-> w] : x \in CompileOpts, w \in {"targ
                                                            w \in {"link", "globallink"} }
          \cup { [o |-> x.o, v |-> x.v, where |-> "link"] : x \in { y \in LinkOpts : y.o = "lib" /\ y.v # "" } }
          \cup { [o |-> "envdef", v |-> "", where |-> "env"] }
+         \* a library requested for every link through the environment (LDLIBS=-lext2, LDFLAGS=-L<dir>)
+         \cup { [o |-> "envlib", v |-> "", where |-> "env"] }
 VARIABLE c
 Init == c \in { [lang |-> l, slots |-> <<a>>] : l \in Langs, a \in Slots }
               \cup (IF Pairs THEN { [lang |-> l, slots |-> <<a, b>>] : l \in Langs, a \in Slots, b \in Slots } ELSE {})
